@@ -149,7 +149,7 @@ def unsafe_inventory(under_contract):
     return {"unsafe_blocks_total": total, "unsafe_blocks_in_functions_under_contract": covered, "unsafe_blocks_not_covered": open_sites}
 
 
-STANDIN_PROPS = {"C01", "C02", "C03", "C04", "C05", "C06", "C07", "C08", "C09", "C10", "C11", "C12", "C14", "C15", "C16", "C18", "C19", "C20"}
+STANDIN_PROPS = {"C01", "C02", "C03", "C04", "C05", "C06", "C07", "C08", "C09", "C10", "C11", "C12", "C14", "C13", "C15", "C16", "C18", "C19", "C20"}
 
 
 def uncovered(prop):
@@ -168,7 +168,31 @@ def run(prop, tier, seed):
     return r
 
 
+# C13 has no searcher of its own (undefined behaviour cannot be executed safely).  Its bounded stand-in checks the
+# PRECONDITION of the unchecked accesses instead: every digraph produced by the safe API is well-formed (no arc to a
+# non-vertex, no self-loop, order consistent), which is what the searches of C01 / C14 / C16 establish on their inputs.
+STANDIN_ALIASES = {"C13": ["C01", "C14", "C16"]}
+
+
 def search(prop, seed, failures, tier="quick"):
+    if prop in STANDIN_ALIASES:
+        total = 0
+        last = {"input": None, "evaluated": 0, "note": ""}
+        for q in STANDIN_ALIASES[prop]:
+            r = _search(q, seed, failures, tier)
+            total += r.get("evaluated", 0)
+            if r.get("input") is not None or r.get("error"):
+                r["evaluated"] = total
+                r["note"] = "(%s stand-in via the %s search: well-formedness of digraphs produced by the safe API) %s" % (prop, q, r.get("note", ""))
+                return r
+            last = r
+        last["evaluated"] = total
+        last["note"] = "(%s stand-in via the %s searches) no failing input" % (prop, "/".join(STANDIN_ALIASES[prop]))
+        return last
+    return _search(prop, seed, failures, tier)
+
+
+def _search(prop, seed, failures, tier="quick"):
     """concrete-input searcher against the real crate (replay/): returns {'input': ..} or {'input': None}"""
     exe = os.path.join(VERIF, "build", "replay-target", "release", "search")
     rdir = os.path.join(VERIF, "replay")
